@@ -174,6 +174,8 @@ class Cell:
     def __init__(self):
         self.script = None
         self.called = None
+        self.calls = []          # (class, user method) of every scripted user method entered since the request was pushed
+        self.handled = []        # (class, method id) of every generated handle() entered since the request was pushed
         self.observed = None
         self.observed_type = None
         self.value_error = None
@@ -190,6 +192,7 @@ def instrument(srvinfo, cell):
         async def user(client, *args):
             sc = cell.script
             cell.called = m["user"]
+            cell.calls.append([srvinfo["class"], m["user"]])
             for _ in range(sc.get("yields", 0)): await anyio.sleep(0)
             mode = sc["mode"]
             if mode == "stub": return await stub(client, *args)
@@ -228,6 +231,7 @@ def instrument(srvinfo, cell):
             setattr(srv, m["user"], make_user(m))
     orig = srv.handle
     async def handle(client, method_id, input, output):
+        cell.handled.append([srvinfo["class"], method_id])
         try:
             await orig(client, method_id, input, output)
         except BaseException as e:
@@ -282,6 +286,7 @@ async def run_session(srvinfos, cases, minor=0, max_yields=200, prebuilt=None):
             if state["loop"] != "alive":
                 results.append({"skipped": True}); continue
             cell.script = case["script"]; cell.called = None; cell.observed = None; cell.value_error = None; cell.observed_type = None
+            cell.calls = []; cell.handled = []
             peer.sent = []
             peer.send_yields = case["script"].get("send_yields", 0)
             peer.push(bytes.fromhex(case["datagram"]))
@@ -290,7 +295,7 @@ async def run_session(srvinfos, cases, minor=0, max_yields=200, prebuilt=None):
                 await anyio.sleep(0); n += 1
             results.append({"sent": [d.hex() for d in peer.sent], "loop": state["loop"], "observed": cell.observed,
                             "called": cell.called is not None, "hang": n >= max_yields, "observed_type": cell.observed_type, "value_error": cell.value_error,
-                            "closed": client.closed})
+                            "closed": client.closed, "calls": cell.calls, "handled": cell.handled})
         state["teardown"] = True
         tg.cancel_scope.cancel()
     return results
